@@ -5,7 +5,7 @@ import Relay.Model.Rwc
 
 Lines (string fields hex, `-` = empty):
 `add id stream dest` · `del id` · `dell k` (delete the k-th id of the sorted listing, mod its length; a `.delete` of that id) · `down dest` · `up dest` · `drop dest` ·
-`await dest n t [slow]` (n, t = what the harness waits for; ignored here) ·
+`await dest n t [slow]` (n, t = what the harness waits for; ignored here) · `idle ms` (1..5 digits; real time passes) ·
 `bcast topic ext msg k` / `bcast topic as dest msg k` · `inject dest msg k` (k = receipts to wait for; ignored) ·
 `conns` · `rules`.
 Destinations are reported by name; a destination listed twice means two sockets to it. -/
@@ -41,13 +41,16 @@ def showRules (s : St) : String :=
     (topicsOf s.cfg p.2.stream).map (fun t => stringToHex p.2.dest ++ "@" ++ stringToHex t))
   s!"rules={showMs rs} clients={showMs cs} regs={showMs regs} orphans={(orphans s).length}"
 
-/-- an index field: 1..6 decimal digits, nothing else -/
-def parseIndex (k : String) : Option Nat :=
+/-- a decimal field of 1..`max` digits, nothing else -/
+def parseDigits (max : Nat) (k : String) : Option Nat :=
   let cs := k.toList
-  if cs.length = 0 ∨ cs.length > 6 then none
+  if cs.length = 0 ∨ cs.length > max then none
   else if cs.all (fun c => '0' ≤ c ∧ c ≤ '9') then
     some (cs.foldl (fun n c => n * 10 + (c.toNat - '0'.toNat)) 0)
   else none
+
+/-- an index field: 1..6 decimal digits, nothing else -/
+def parseIndex (k : String) : Option Nat := parseDigits 6 k
 
 /-- the ids of the rule listing as the harness prints them: hex, sorted -/
 def listedHex (s : St) : List String := sortMs (s.rules.map (fun p => stringToHex p.1))
@@ -86,6 +89,10 @@ def step (s : St) (fs : List String) : St × String :=
   | ["drop", d] =>
     match hexToString d with
     | some d => ack s (.drop d)
+    | none => (s, "bad-op")
+  | ["idle", ms] =>
+    match parseDigits 5 ms with
+    | some _ => ack s .idle
     | none => (s, "bad-op")
   | ["await", d, _, _] | ["await", d, _, _, "slow"] =>
     match hexToString d with
